@@ -58,4 +58,41 @@ def servicesKeepalive (s : Lnc.Facts.SelectFact) : Bool :=
 def restingSelects (sels : List Lnc.Facts.SelectFact) : List Lnc.Facts.SelectFact :=
   sels.filter fun s => !s.hasDefault
 
+/-! ### the resend timer of a sender with unacknowledged packets
+
+`receivePacketsForever` decides which received packets postpone the
+retransmission of the queue (`g.resendTicker.Reset`). -/
+
+/-- kinds of packets the receive loop sees in the data phase -/
+inductive RxKind | data | ack | nack
+deriving DecidableEq, Repr
+
+structure ResendTimer where
+  deadline : Nat
+  timeout : Nat
+deriving Repr, DecidableEq
+
+/-- a packet of kind `k` is received at time `t` -/
+def ResendTimer.recv (resets : RxKind → Bool) (rt : ResendTimer) (k : RxKind) (t : Nat) : ResendTimer :=
+  if resets k then { rt with deadline := t + rt.timeout } else rt
+
+/-- does the timer fire during the history (a packet arriving at or after the
+    deadline finds it fired) or, after it, by the horizon? -/
+def firesBy (resets : RxKind → Bool) (rt : ResendTimer) : List (RxKind × Nat) → Nat → Bool
+  | [], horizon => decide (rt.deadline ≤ horizon)
+  | (k, t) :: rest, horizon =>
+    if rt.deadline ≤ t then true else firesBy resets (rt.recv resets k t) rest horizon
+
+/-- the code after the repair: only responses to our own packets postpone the resend -/
+def resetsOnResponse : RxKind → Bool
+  | .data => false
+  | _ => true
+
+/-- the code before the repair: every received packet postpones it -/
+def resetsOnAny : RxKind → Bool := fun _ => true
+
+/-- the peer sends its own DATA (or pings) with period `p`, starting at `t0 + p` -/
+def peerTraffic (t0 p n : Nat) : List (RxKind × Nat) :=
+  (List.range n).map fun i => (RxKind.data, t0 + (i + 1) * p)
+
 end Lnc.Gbn.Control
